@@ -57,6 +57,10 @@ pub struct KConfig {
     pub cq_entries_cap: u32,
     /// ns added to the clock by every enter
     pub tick_ns: u64,
+    /// datagrams sent through sendmsg on a datagram socket get lost / duplicated on the way (only
+    /// scenarios whose protocol recovers from it switch these on)
+    pub udp_loss: u32,
+    pub udp_dup: u32,
 }
 
 impl Default for KConfig {
@@ -74,6 +78,8 @@ impl Default for KConfig {
             sq_entries_cap: 0,
             cq_entries_cap: 0,
             tick_ns: 1_000,
+            udp_loss: 0,
+            udp_dup: 0,
         }
     }
 }
@@ -111,6 +117,8 @@ impl KConfig {
                 _ => 4,
             },
             tick_ns: 1_000,
+            udp_loss: 0,
+            udp_dup: 0,
         }
     }
 }
